@@ -423,6 +423,8 @@ func (P) Exec(line string) string {
 			return "err:other"
 		}
 		return fmt.Sprintf("%d,%d", sl.Seconds, sl.BlockHeight)
+	case "lt2seq":
+		return strconv.FormatUint(uint64(blockchain.LockTimeToSequence(a[0] == "1", uint32(atou(a[1])))), 10)
 	case "lockactive":
 		sl := &blockchain.SequenceLock{Seconds: atoi(a[0]), BlockHeight: int32(atoi(a[1]))}
 		return b01(blockchain.SequenceLockActive(sl, int32(atoi(a[2])), time.Unix(atoi(a[3]), 0)))
